@@ -33,6 +33,10 @@ CHECKS = {
    technique="TLA+ definition of operation complexity and the limit gate (Complexity.tla) with theorems checked by TLC; every enumerated (tree, cost functions, limit) replayed against complexity.Calculate, the ComplexityLimit extension and the generated Complexity() switch",
    text="Complexity.tla defines Cx over abstract schemas / selection trees / a family of custom cost functions (constant, child+c, child*k, negative, MAX-1, MAX, below-child) on symbolic machine integers, and TLC checks range, monotonicity, never-below-children, permutation/fragment invariance and the gate rule on all bounded inputs plus the safeAdd boundary grid. Each enumerated case is concretised and run through complexity.Calculate with a hand-written schema AND the generated Complexity() of probe servers built from /repo's templates (both layouts), and through a real server with FixedComplexityLimit / ComplexityLimit for limits Cx-1, Cx, Cx+1, 0, MaxInt: value, stats, rejection and an empty resolver log must match the specification.",
    note="Trusted: TLC, the symbolic-integer concretiser (H = 2^62-1). @skip/@include, __type, non-query operations and non-POST transports are not varied."),
+ "C08": dict(level=EX, ref="DESIGN.md §5 C08, notes/C08.md",
+   technique="TLA+ transducer model of the JSON string writer over byte classes + scalar class tables (JsonWriter.tla) with theorems checked by TLC; every class sequence concretised and run through the real Marshal*/Unmarshal* functions with an independent RFC 8259/UTF-8 validator",
+   text="JsonWriter.tla models writeQuotedString over 23 byte classes (controls, quote, backslash, valid 2/3/4-byte units, every kind of ill-formed UTF-8) together with a JSON-string acceptor, a decoder and the reference sanitiser; TLC checks for all class sequences up to 3 (quick) / 4 (thorough) units that the output is an RFC 8259 string, valid UTF-8, and decodes to the input with each offending byte replaced by U+FFFD, and checks the scalar encoder/decoder class tables (integers at every width boundary x carrier, floats incl. non-finite, ID forms, Time, Duration, UUID, Map, Any, Omittable). Each enumerated class is concretised into several seeded byte strings / values and run through the real functions; an independent strict validator, encoding/json decoding and the Unmarshal round trip must agree with the specification; FieldSet/Array/Response nestings are validated too.",
+   note="Trusted: TLC, the harness's own validator, encoding/json. Times outside RFC 3339's range and MarshalFloat (non-default binding) with non-finite values are not decided."),
 }
 NOT_YET = {}
 def main():
